@@ -111,3 +111,74 @@ Proof. vm_compute. reflexivity. Qed.
 Example has_rasters_example : has_rasters (mkR [(key_adc_raster, [1 # 10000000]); (key_block_raster, [1 # 100000]);
   (key_grad_raster, [1 # 100000]); (key_rf_raster, [1 # 1000000])] [] [] [] [] [] [] [] [] [] []).
 Proof. unfold has_rasters. cbn. repeat split; discriminate. Qed.
+
+(* ---- the reader's first/last reconstruction scan (read_seq.py:256-327, Model/Scan.v) --------------------------
+   For every block table that is continuous (C05 invariant, exact: every shape-based gradient event starts at the
+   value the previous block ended at on its channel, at 0 when it has a delay, and an event ending before the
+   block end ends at 0) and for EVERY history of re-use of events (same id in several blocks, on several channels
+   of one block), the scan as the source has it now gives every event (first, last) = (the value it started at,
+   its own end value).  F is the map id -> first value; its existence is what continuity with re-use means. *)
+From PV Require Import Gen.GenScan Model.Scan Model.ScanGen Proofs.ScanProofs.
+
+Theorem first_last_reconstruction : forall lib F bs, Cont scan_eps lib F [0; 0; 0] bs ->
+  forall b id, In b bs -> In id (b_ids b) -> is_grad lib id ->
+  zlookup (snd (scan_file lib bs)) id = Some (F id, wl lib id).
+Proof.
+  unfold scan_file. change scan_sets_prev_on_done with true. change scan_fix_shared with true.
+  intros lib F. exact (first_last_reconstruction_gen scan_eps lib F).
+Qed.
+Print Assumptions first_last_reconstruction.
+
+Ltac solve_cont :=
+  repeat match goal with
+  | |- _ /\ _ => split
+  | |- Forall2 _ _ _ => constructor
+  | |- chan_ok _ _ _ _ _ _ => let g := fresh "g" in let H := fresh "H" in
+        intros g ? H ?; vm_compute in H; first [discriminate H|inversion H; subst; split; [reflexivity|let X := fresh "X" in intro X; vm_compute in X; first [discriminate X|reflexivity]]]
+  | |- True => exact I
+  | |- _ = _ => reflexivity
+  end.
+
+(* the scan as it was before repair 8ae658b: one event on two channels of block 1 (x and y ramp up together),
+   two different events in block 2 — the y event is reconstructed with first = 0 instead of 100000 *)
+Definition w_lib : list (Z * gev) :=
+  [(1%Z, mkG false 0 (1 # 2000) 100000); (2%Z, mkG false 0 (1 # 2000) 0); (3%Z, mkG false 0 (1 # 2000) 0)].
+Definition w_F (id : Z) : Q := if (id =? 1)%Z then 0 else 100000.
+Definition w_blocks : list sblock := [mkB (1 # 2000) [1; 1; 0]%Z; mkB (1 # 2000) [2; 3; 0]%Z].
+Theorem scan_shared_event_refuted : exists lib F bs,
+  Cont scan_eps lib F [0; 0; 0] bs /\
+  exists b id, In b bs /\ In id (b_ids b) /\ is_grad lib id /\
+  zlookup (snd (scan_blocks true false scan_eps lib bs)) id <> Some (F id, wl lib id).
+Proof.
+  exists w_lib, w_F, w_blocks. split.
+  - unfold w_blocks. cbn [Cont b_ids b_dur map]. solve_cont.
+  - exists (mkB (1 # 2000) [2; 3; 0]%Z), 3%Z. split; [right; left; reflexivity|]. split; [right; left; reflexivity|].
+    split; [split; [discriminate|eexists; split; reflexivity]|]. intro H. vm_compute in H. discriminate H.
+Qed.
+Print Assumptions scan_shared_event_refuted.
+
+(* the variant that does not refresh the running value at an already reconstructed event:
+   ramp-up / plateau A / ramp-down / the same ramp-up again / plateau B — plateau B gets first = 0 *)
+Definition v_lib : list (Z * gev) :=
+  [(1%Z, mkG false 0 (1 # 2000) 100000); (2%Z, mkG false 0 (1 # 1000) 100000); (3%Z, mkG false 0 (1 # 2000) 0);
+   (4%Z, mkG false 0 (3 # 2000) 100000)].
+Definition v_F (id : Z) : Q := if (id =? 1)%Z then 0 else 100000.
+Definition v_blocks : list sblock :=
+  [mkB (1 # 2000) [1; 0; 0]%Z; mkB (1 # 1000) [2; 0; 0]%Z; mkB (1 # 2000) [3; 0; 0]%Z; mkB (1 # 2000) [1; 0; 0]%Z;
+   mkB (3 # 2000) [4; 0; 0]%Z].
+Theorem scan_skip_reconstructed_refuted : exists lib F bs,
+  Cont scan_eps lib F [0; 0; 0] bs /\
+  exists b id, In b bs /\ In id (b_ids b) /\ is_grad lib id /\
+  zlookup (snd (scan_blocks false true scan_eps lib bs)) id <> Some (F id, wl lib id).
+Proof.
+  exists v_lib, v_F, v_blocks. split.
+  - unfold v_blocks. cbn [Cont b_ids b_dur map]. solve_cont.
+  - exists (mkB (3 # 2000) [4; 0; 0]%Z), 4%Z. split; [do 4 right; left; reflexivity|]. split; [left; reflexivity|].
+    split; [split; [discriminate|eexists; split; reflexivity]|]. intro H. vm_compute in H. discriminate H.
+Qed.
+Print Assumptions scan_skip_reconstructed_refuted.
+
+(* the same two histories are reconstructed correctly by the scan as it is now *)
+Example scan_now_on_witnesses :
+  zlookup (snd (scan_file w_lib w_blocks)) 3%Z = Some (100000, 0) /\ zlookup (snd (scan_file v_lib v_blocks)) 4%Z = Some (100000, 100000).
+Proof. split; vm_compute; reflexivity. Qed.
